@@ -116,7 +116,7 @@ func units(tier string) []mc.Unit {
 			add(3, full, func(h []string) *params {
 				switch len(h) {
 				case 1:
-					return &params{MaxCont: 2, ContKinds: full, Restart: true, Nested: true, AfterFull: true, Reader: true}
+					return &params{MaxCont: 2, ContKinds: reduced[store], Restart: true, Nested: true, AfterFull: true, Reader: true}
 				case 2:
 					return &params{MaxCont: 2, ContKinds: reduced[store], Restart: true, Nested: true, Reader: true}
 				}
